@@ -180,7 +180,9 @@ def enc_case(case):
             custom.append([ident, [1, EXN_CODE.get(type(r).__name__, 1002)]])
         else:
             custom.append([ident, [0, 1 if r else 0]])
-    world = [[[S(k), enc_jv(v)] for k, v in case['rules'].items()],
+    # what the enforcer's rule store holds once loaded: the given rules, plus (when they come from files and the
+    # enforcer merges its registered defaults) every registered default the files do not define
+    world = [[[S(k), enc_jv(v)] for k, v in case.get('model_rules', case['rules']).items()],
              enc_default(case['default']),
              enc_jv(case['target']),
              enc_jv({} if case['creds'] == NOT_MAPPING else case['creds']),
@@ -309,6 +311,19 @@ def run_impl(case, deep=None):
         e.set_rules(policy.Rules.from_dict(case['rules'], case.get('carrier_default', 'zz_other')), use_conf=False)
     elif carrier == 'rules_none':
         e.set_rules(policy.Rules.from_dict(case['rules']), use_conf=False)
+    elif carrier == 'rules_shared':
+        # ONE parsed Rules object handed to this enforcer and then to another enforcer with another default rule
+        shared = policy.Rules.from_dict(case['rules'], e.default_rule)
+        e.set_rules(shared, use_conf=False)
+        other = policy.Enforcer(conf, use_conf=False, policy_file='policy.yaml',
+                                default_rule=case.get('carrier_default', 'zz_other'))
+        other.set_rules(shared, use_conf=False)
+        try:
+            other.enforce('zz_probe_undefined', {}, {'roles': ['x', 'y']})
+        except Exception:   # noqa
+            pass
+        other2 = policy.Enforcer(conf, use_conf=False, policy_file='policy.yaml', default_rule=_parser.parse_rule('@'))
+        other2.set_rules(shared, use_conf=False)
     else:
         e.set_rules(policy.Rules.from_dict(case['rules'], e.default_rule), use_conf=False)
     if case['rule'][0] == 'name':
